@@ -73,7 +73,11 @@ def fingerprint(d):
 
 
 def comp_case(col, rng, cidx, jobref=None):
-    pid = "C19"
+    pid = (jobref or {}).get("pid", "C19")
+    if (jobref or {}).get("only"):
+        from .jobs import Filtered
+
+        col = Filtered(col, jobref["only"])
     sp, setup = gen_comp_spec(rng)
     plain = {name: probes.mkprobe(name, shape=tuple(fs["shape"]) if fs.get("shape") else None) for name, fs in sp["fns"].items()}
     ids = S.node_ids(sp)
@@ -117,6 +121,11 @@ def comp_case(col, rng, cidx, jobref=None):
     for _k in range(4):
         ins = rng.sample(range(n), rng.randint(0, min(2, n)))
         outs = rng.sample(range(n), rng.randint(1, min(2, n)))
+        chains = [(a_, b_) for (a_, b_) in g.edges if a_ in setup and b_ in setup]
+        if chains and rng.random() < 0.35:
+            # aim at the unjudged corner on purpose: a setup node as input, a setup node that consumes it among the outputs' needs
+            a_, b_ = rng.choice(chains)
+            ins, outs = [a_], [rng.choice(sorted(nx.descendants(g, b_) | {b_}))]
         if set(ins) & set(outs):
             col.counters["skipped_inputs_overlap_outputs"] += 1
             continue
@@ -178,11 +187,27 @@ def comp_case(col, rng, cidx, jobref=None):
             try:
                 with warnings.catch_warnings():
                     warnings.simplefilter("ignore")
-                    d.compose("cmp%d_%d_x" % (cidx, _k), in_alias, out_alias)
+                    cx = d.compose("cmp%d_%d_x" % (cidx, _k), in_alias, out_alias)
             except BaseException as e:  # noqa: BLE001
                 if isinstance(e, (KeyboardInterrupt, SystemExit)):
                     raise
                 col.counters["unjudged_compose_refused:%s" % type(e).__name__] += 1
+                continue
+            # compose accepted it.  Whether it should is not judged - but the DAG it returned is a DAG: the outcome of its second
+            # call may depend on that call's own arguments only (a setup node fed by a call argument would freeze the first one)
+            from .sym import mentions
+
+            nin = len(ins) + len(par_in) if not use_ellipsis else len(params)
+            v1 = [Sym("in1", cidx, _k, q) for q in range(nin)]
+            v2 = [Sym("in2", cidx, _k, q) for q in range(nin)]
+            r1 = probes.run_op("composed_call_1", lambda: op_call(cx, v1))
+            r2 = probes.run_op("composed_call_2", lambda: op_call(cx, v2))
+            col.counters["c19_accepted_composes_with_setup_downstream_of_input"] += 1
+            col.evaluations += 1
+            if r1[0] == "ok" and r2[0] == "ok" and mentions(r2[1], lambda t: isinstance(t, tuple) and len(t) > 0 and t[0] == "in1"):
+                col.violation(pid, "composed_dag_call_depends_on_an_earlier_call", dict(
+                    second_call_returned=short(r2[1], 300), inputs=S.jsonable(in_alias if in_alias is not ... else "..."),
+                    outputs=S.jsonable(out_alias), source=S.render(sp)), dict(rp, inputs=S.jsonable(in_alias if in_alias is not ... else "..."), outputs=S.jsonable(out_alias)))
             continue
         missing = [p for p in need_par if p not in par_in and p in required]
         exp_err = exp_err or bool(missing)
